@@ -626,6 +626,7 @@ class Frozen:
         self.bases, self.where = {}, {}
         self.self_stores, self.other_stores, self.dynamic = {}, {}, set()     # class -> attrs ; rel -> attrs ; rels with dynamic setattr
         self.init_stores = {}
+        self.store_sites = {}                  # (class, attr) -> names of the non-constructor methods that store self.attr
         for rel, t in trees_by_rel.items():
             for c in ast.walk(t):
                 if isinstance(c, ast.ClassDef):
@@ -647,6 +648,7 @@ class Frozen:
                     self.init_stores.setdefault(cname, set()).add(n.attr)
                 elif on_self:
                     self.self_stores.setdefault(cname, set()).add(n.attr)
+                    self.store_sites.setdefault((cname, n.attr), set()).add(getattr(node, "name", "?"))
                 else:
                     self.other_stores.setdefault(rel, set()).add(n.attr)
             if isinstance(n, ast.Call) and isinstance(n.func, ast.Name) and n.func.id in ("setattr", "delattr") and len(n.args) >= 2:
@@ -668,6 +670,15 @@ class Frozen:
             todo += [b for b in self.bases.get(c, ()) if b in self.bases]
             todo += [d for d, bs in self.bases.items() if c in bs]
         return fam
+
+    def only_stored_by(self, cname, attr, fname) -> bool:
+        """self.<attr> is (re)bound, outside constructors, by the method `fname` alone -- in the whole class family and its modules"""
+        fam = self.family(cname)
+        rels = set().union(*(self.where.get(c, set()) for c in fam)) if fam else set()
+        if rels & self.dynamic or any(attr in self.other_stores.get(r, set()) for r in rels):
+            return False
+        sites = set().union(*(self.store_sites.get((c, attr), set()) for c in fam))
+        return sites <= {fname}
 
     def fields(self, cname) -> set:
         fam = self.family(cname)
@@ -697,6 +708,7 @@ def propagate_aliases(tree, frozen_of) -> int:
     for qual, f, cname in _defs(tree):
         if cname is None:
             continue
+        n_done += _fresh_field_alias(f, cname, frozen_of)
         frozen = frozen_of.fields(cname)
         if not frozen:
             continue
@@ -791,3 +803,54 @@ def positive_guards(tree, flags=("_USE_CYTHON",)) -> int:
         if isinstance(c, (ast.FunctionDef, ast.AsyncFunctionDef)):
             fix(c.body)
     return n
+
+
+def _fresh_field_alias(f, cname, frozen_of) -> int:
+    """`v = E` directly followed by `self.g = v` (top level of the method; v bound once; self.g bound by this method alone, here):
+    afterwards v and self.g name the same object, so  self.g = E  and every later read of v is a read of self.g."""
+    a = f.args
+    params = {x.arg for x in a.posonlyargs + a.args + a.kwonlyargs}
+    done = 0
+    i = 0
+    while i + 1 < len(f.body):
+        s1, s2 = f.body[i], f.body[i + 1]
+        i += 1
+        v = None
+        if isinstance(s1, ast.Assign) and len(s1.targets) == 1 and isinstance(s1.targets[0], ast.Name):
+            v, val = s1.targets[0].id, s1.value
+        elif isinstance(s1, ast.AnnAssign) and isinstance(s1.target, ast.Name) and s1.value is not None:
+            v, val = s1.target.id, s1.value
+        if v is None or v in params:
+            continue
+        if not (isinstance(s2, ast.Assign) and len(s2.targets) == 1 and isinstance(s2.value, ast.Name) and s2.value.id == v):
+            continue
+        ch = _self_chain(s2.targets[0])
+        if ch is None or len(ch) != 1:
+            continue
+        g = ch[0]
+        binds = sum(1 for n in ast.walk(f) if isinstance(n, ast.Name) and n.id == v and isinstance(n.ctx, (ast.Store, ast.Del)))
+        nested = any(isinstance(n, (ast.FunctionDef, ast.AsyncFunctionDef, ast.Lambda)) and n is not f and
+                     any(isinstance(x, ast.Name) and x.id == v for x in ast.walk(n)) for n in ast.walk(f))
+        g_stores = sum(1 for n in ast.walk(f) if isinstance(n, ast.Attribute) and n.attr == g and isinstance(n.ctx, (ast.Store, ast.Del)))
+        if binds != 1 or nested or g_stores != 1 or not frozen_of.only_stored_by(cname, g, f.name):
+            continue
+        field = s2.targets[0]
+
+        class _S(ast.NodeTransformer):
+            def visit_Name(self, n):
+                if isinstance(n.ctx, ast.Load) and n.id == v:
+                    fld = copy.deepcopy(field)
+                    for x in ast.walk(fld):
+                        if hasattr(x, "ctx"):
+                            x.ctx = ast.Load()
+                    return ast.copy_location(fld, n)
+                return n
+        s2.value = val
+        idx = f.body.index(s1)
+        del f.body[idx]
+        for st in f.body[idx + 1:]:
+            _S().visit(st)
+        ast.fix_missing_locations(f)
+        done += 1
+        i = idx
+    return done
